@@ -346,6 +346,35 @@ impl ReliableMessage {
     }
 }
 
+/// Verification hooks (feature `verif`): read access to the private reliability state.
+#[cfg(feature = "verif")]
+impl RetransEntry {
+    pub fn verif_backoff_ms(base_interval_ms: u32, counter: u16, jitter_rand: u8) -> u64 {
+        Self::backoff_ms(base_interval_ms, counter, jitter_rand)
+    }
+
+    pub fn verif_counter(&self) -> u16 {
+        self.counter
+    }
+}
+
+#[cfg(feature = "verif")]
+impl ReliableMessage {
+    pub fn verif_retrans_delay_ms(&self, jitter_rand: u8) -> Option<u64> {
+        self.retrans.as_ref().map(|r| r.delay_ms(jitter_rand))
+    }
+
+    /// `(retrans (msg ctr, attempt counter), ack (msg ctr, acknowledged), received_at set)`
+    #[allow(clippy::type_complexity)]
+    pub fn verif_state(&self) -> (Option<(u32, u16)>, Option<(u32, bool)>, bool) {
+        (
+            self.retrans.as_ref().map(|r| (r.msg_ctr, r.counter)),
+            self.ack.as_ref().map(|a| (a.msg_ctr, a.acknowledged)),
+            self.received_at.is_some(),
+        )
+    }
+}
+
 #[cfg(test)]
 mod tests {
     use super::*;
